@@ -272,6 +272,7 @@ class Runner:
     self.result_new = None
     fam = 'd' if name in DICT_OPS else 'l' if name in LIST_OPS else 'o' if name in OBJ_OPS else '*'
     target = None if name == 'new' else self.pick(nodes, fam, abs(j.get('t', 0)))
+    self.last_target = target
     cx = {'nodes': nodes, 'target': target, 'unsafe': bool(j.get('unsafe')), 'fuel': len(nodes)}
     used = set()
     notify = j.get('n', True)
